@@ -35,7 +35,8 @@ TOL = 1e-6
 
 KCT = ('kopf.dev', 'v1', 'kopfclusterthings')
 NS_ALL = ['default', 'ns-a', 'ns-b', 'other']
-BUSINESS = {KEX: 'kopfexamples', KCT: 'kopfclusterthings'}
+K3 = ('third.dev', 'v1', 'kopfthirds')       # served through its short name only, which its CRD may lose and regain
+BUSINESS = {KEX: 'kopfexamples', KCT: 'kopfclusterthings', K3: 'kopfthirds'}
 
 
 def served_ns(mode, ns):
@@ -55,6 +56,9 @@ def scenarios(draw):
                 'queueing.idle_timeout': draw(st.sampled_from([5.0, 0.5, 1.0]))}
     spec = {'handlers': [{'kind': 'event', 'id': 'ev', 'resource': 'kopfexamples'},
                          {'kind': 'event', 'id': 'evc', 'resource': 'kopfclusterthings'}], 'settings': settings}
+    third = draw(st.booleans())
+    if third:
+        spec['handlers'].append({'kind': 'event', 'id': 'ev3', 'resource': 'kth'})
     dts = st.sampled_from([0.0, 0.0, 0.05, 0.2, 0.5, 1.0, 3.0])
     ns = st.sampled_from(NS_ALL)
     obj = st.integers(0, 2)
@@ -90,6 +94,11 @@ def scenarios(draw):
         st.builds(lambda dt: {'a': 'crd_remove', 'dt': dt}, dts),
         st.builds(lambda dt: {'a': 'crd_add', 'dt': dt}, dts),
     )
+    if third:
+        # the CRD of the third kind is modified: it loses / regains the short name by which the handler names it (the resource
+        # goes on existing, but is no longer / is again what the handler's selector means)
+        a_cluster = st.one_of(a_cluster, st.builds(lambda on, dt: {'a': 'shortname', 'on': on, 'dt': dt}, st.booleans(), dts),
+                              st.builds(lambda on, dt: {'a': 'shortname', 'on': on, 'dt': dt}, st.booleans(), dts))
     a_misc = st.one_of(st.builds(lambda dt: {'a': 'advance', 'dt': dt}, st.sampled_from([1.0, 3.0, 8.0])), st.just({'a': 'checkpoint'}))
     choices = [a_obj, a_obj, a_obj, a_pair, a_stream, a_stream, a_cluster, a_misc]
     if peering:
@@ -118,7 +127,7 @@ def scenarios(draw):
         else:
             actions += [{'a': 'ccreate', 'obj': 0, 'v': 1, 'dt': 0.2}, {'a': 'cedit', 'obj': 0, 'v': 2, 'dt': 0.2}, {'a': 'cedit', 'obj': 0, 'v': 3, 'dt': 1.0}]
         actions += draw(st.lists(a_obj, min_size=0, max_size=3))
-    return {'seed': draw(st.integers(0, 9999)), 'mode': mode, 'peering': peering, 'spec': spec, 'crd_present': draw(st.booleans()) or True,
+    return {'seed': draw(st.integers(0, 9999)), 'mode': mode, 'peering': peering, 'spec': spec, 'crd_present': draw(st.booleans()) or True, 'third': third,
             'pre': pre, 'actions': actions, 'warmup': draw(st.sampled_from([0.0, 0.5, 2.0])), 'gc': draw(st.sampled_from(['never', 'never', 'per-action'])),
             # where the cluster's resource versions start: the history may cross a power of ten (versions are opaque strings; '1000' < '999' as strings)
             'rv0': draw(st.sampled_from([100, 100, 985, 9990, 7]))}
@@ -133,6 +142,9 @@ class Run:
                                   ResDef('kopf.dev', 'v1', 'clusterkopfpeerings', 'ClusterKopfPeering', namespaced=False)],
                        seed=sc.get('seed', 0), rv=sc.get('rv0', 100))
         self.c = self.sim.cluster
+        if sc.get('third'):
+            self.c.add_resource(ResDef(*K3, 'KopfThird', namespaced=False, shortnames=('kth',)))
+            self.c.create(K3, None, 't0', {'spec': {'f': 0}})
         self.checkpoints = []      # dict(t, open=[(rkey, ns)], paused, namespaces, crd)
         self.performed = []
         self.peer_windows = []     # [t_appear, t_vanish|None]
@@ -212,6 +224,12 @@ class Run:
         elif a == 'crd_remove':
             eff = KCT in c.resdefs
             c.remove_resource(KCT)
+        elif a == 'shortname':
+            rd = c.resdefs[K3]
+            eff = bool(rd.shortnames) != act['on']
+            if eff:
+                rd.shortnames = ('kth',) if act['on'] else ()
+                c.edit(CRDS, None, 'kopfthirds.third.dev', lambda b: b['spec']['names'].update(shortNames=list(rd.shortnames)))
         elif a == 'crd_add':
             eff = KCT not in c.resdefs
             if eff:
@@ -248,6 +266,7 @@ class Run:
             'paused': bool(self.peer_windows and self.peer_windows[-1][1] is None),
             'namespaces': sorted(k[2] for k in self.c.objects if k[0] == NAMESPACES),
             'crd': KCT in self.c.resdefs,
+            'third': bool(self.sc.get('third')) and bool(self.c.resdefs[K3].shortnames),
             'pending_faults': [f.spec for f in self.c.faults if f.spec.get('do') in ('status', 'exc') and f.fired < f.spec.get('count', 1)],
         })
 
@@ -442,6 +461,8 @@ def check(run, res):
                 want |= {(KEX, n) for n in cp['namespaces'] if served_ns(mode, n)}
             if cp['crd']:
                 want.add((KCT, None))
+            if cp.get('third'):
+                want.add((K3, None))
         got = {k for k in pairs if k[0] in BUSINESS}
         lingering = {k for k in got - want if any(open_within(w, a, a) for w in pairs[k]) and any(open_within(w, b, b) for w in pairs[k])}
         missing = want - got
@@ -463,6 +484,8 @@ def check(run, res):
             readded = True
     if fault_between:
         res.label('fault-between-changes-of-one-object')
+    if any(act['a'] == 'shortname' and eff for t, act, eff in run.performed):
+        res.label('crd-modified-short-name-lost-or-regained')
     if readded:
         res.label('namespace-or-crd-readded')
     if paused_changes:
